@@ -77,7 +77,8 @@ def render_expr(e, heap):
     if t == "par":
         return "(%s)" % render_expr(e["e"], heap)
     if t == "call":
-        return "%s(%s)" % (e["g"], render_expr(e["a"], heap))
+        args = [render_expr(x, heap) for x in (e["a"], e.get("b", {"t": "none"})) if x["t"] != "none"]
+        return "%s(%s)" % (e["g"], ", ".join(args))
     raise ValueError("expression node %r" % (e,))
 
 
@@ -93,9 +94,10 @@ def render_stmt(s, heap):
         return "if (%s) { %s }" % (render_expr(s["c"], heap), " ".join(render_stmt(x, heap) for x in s["ss"]))
     if t in ("fun", "funx"):
         inner = " ".join([render_stmt(x, heap) for x in s["ss"]] + ["return %s;" % render_expr(s["r"], heap)])
+        params = ", ".join(x for x in (s["p"], s.get("p2", "")) if x)
         if t == "fun":
-            return "function %s(%s) { %s }" % (s["n"], s["p"], inner)
-        return "var %s = function(%s) { %s };" % (s["n"], s["p"], inner)
+            return "function %s(%s) { %s }" % (s["n"], params, inner)
+        return "var %s = function(%s) { %s };" % (s["n"], params, inner)
     raise ValueError("statement node %r" % (s,))
 
 
@@ -133,10 +135,19 @@ def is_pure_param_ref(e):
 
 def lib_variant(e, heap):
     """Functions moved to `expressionLib` (InlineJavascriptRequirement): body whose statements are
-    all function declarations -> (lib text list, `$(call)` text, JS fragment)."""
-    if e["t"] != "body" or not e["ss"] or any(s["t"] != "fun" for s in e["ss"]):
+    all function declarations -> (lib text list, `$(call)` text, JS fragment); body that STARTS with function
+    declarations and goes on with other statements -> (lib text list, `${ rest; return r; }` text, JS fragment)."""
+    if e["t"] != "body" or not e["ss"] or e["ss"][0]["t"] != "fun":
         return None
-    lib = [render_stmt(s, heap) for s in e["ss"]]
+    n = 0
+    while n < len(e["ss"]) and e["ss"][n]["t"] == "fun":
+        n += 1
+    lib, rest = [render_stmt(s, heap) for s in e["ss"][:n]], e["ss"][n:]
+    if any(s["t"] == "fun" for s in rest):
+        return None
+    if rest:
+        text, frag = render_part({"t": "body", "ss": rest, "r": e["r"]}, heap)
+        return lib, text, frag
     inner = render_expr(e["r"], heap)
     return lib, "$(%s)" % inner, "{return ((%s));}" % inner
 
@@ -197,6 +208,27 @@ def rebinding_features(e):
         if part["t"] == "body":
             stmts(part["ss"], "unconditional")
     return sorted(feats)
+
+
+def declaration_shape(e):
+    """The function declarations of a body, by formal parameter list: `params-0`, `params-1`, `params-2`,
+    `shadowing-params-N` when a parameter is called inputs, `outer>inner` for nested declarations, `+` between
+    declarations in a row."""
+    def one(st):
+        params = [x for x in (st["p"], st.get("p2", "")) if x]
+        label = "%sparams-%d" % ("shadowing-" if "inputs" in params else "", len(params))
+        inner = [one(x) for x in st["ss"] if x["t"] == "fun"]
+        return label + (">" + "+".join(inner) if inner else "")
+
+    return "+".join(one(st) for st in e["ss"] if st["t"] == "fun") if e["t"] == "body" else ""
+
+
+def scope_suffix(case):
+    """Signature suffix of the scope-balance classes: where the read stands with respect to the declarations."""
+    if not case["c"].startswith("scope-"):
+        return ""
+    return ":%s:%s" % (case["c"][len("scope-"):].replace("-function", "-function-declaration"),
+                       declaration_shape(case["e"]))
 
 
 # ------------------------------------------------------------------------------------------------
@@ -339,6 +371,7 @@ def missed_signatures(case, syntax, missing):
                            "computed-expression-key": "computed-member-access:expression-key"}.get(s["ak"], s["ak"])
                           for s in sites})
             sig += ":" + "+".join(aks)
+        sig += scope_suffix(case)
         sigs.setdefault(sig, []).append(f)
     return sigs
 
@@ -354,7 +387,7 @@ def judge(ctx, case, variant, text, lib, full_js, node, res):
             return True  # the statement only constrains expressions that evaluate
         # a computed / numeric index on a tracked name names the crash site; otherwise how an alias is re-bound
         feats = raise_features(case["e"]) or rebinding_features(case["e"])
-        sig = "raises:%s:%s:%s" % (syntax, "+".join(feats) or "no-computed-access", res["raise"])
+        sig = "raises:%s:%s%s:%s" % (syntax, "+".join(feats) or "no-computed-access", scope_suffix(case), res["raise"])
         ctx.violation(sig, detail, "resolve_dependencies(%r, %s) raises %s: %s (node evaluates it, reading %s)" % (
             text, mode, res["raise"], res.get("msg", ""), sorted(case["reads"])))
         return False
@@ -370,7 +403,9 @@ def judge(ctx, case, variant, text, lib, full_js, node, res):
 
 # quick tier: the expressionLib rendering only for the classes where the function matters for the verdict
 LIB_CLASSES_QUICK = {"closure", "function-argument", "shadowing-parameter-gets-inputs", "shadow-then-use",
-                     "nested-closure-over-parameter", "nested-argument-inner"}
+                     "nested-closure-over-parameter", "nested-argument-inner",
+                     "scope-direct-read-after-function", "scope-alias-after-function",
+                     "scope-alias-inside-function"}
 
 
 def evaluate(ctx, heap, cases, strict_spec=True, lib_all=True):
@@ -432,7 +467,8 @@ def run(ctx):
     probe_node(ctx)
     level = ctx.pick(1, 2)
     ctx.rule = ("TLC evaluates the specification's interpreter on every AST of the bounded family (parameter references, "
-                "dot/quoted/computed access, aliases, re-assignment, functions/closures/shadowing, string mentions, "
+                "dot/quoted/computed access, aliases, re-assignment, functions/closures/shadowing, function declarations "
+                "with 0/1/2 parameters (shadowing, nested, in a row) followed by aliases and reads, string mentions, "
                 "self/runtime, concatenations, templates; x one/two-level accesses); every AST is rendered, evaluated by "
                 "node with a Proxy around inputs (must equal the specification's reads) and passed to the real "
                 "resolve_dependencies (full_js=True; also full_js=False for parameter references; functions also via "
